@@ -5,6 +5,13 @@ From TR Require Import Lib.GoLists.
 Open Scope Z_scope.
 Open Scope bool_scope.
 
+(* traceroute.RunTraceroute *)
+Definition go_destination_port (params_Port : Z) :=
+  let destinationPort := params_Port in
+  if (destinationPort =? 0) then let destinationPort := 33434 in
+  destinationPort
+  else destinationPort.
+
 (* traceroute.runTracerouteOnce *)
 Definition go_runOnce_ttl_range_rejected (params_MinTTL : Z) (params_MaxTTL : Z) :=
   (((params_MinTTL <? 1) || (255 <? params_MaxTTL)) || (params_MaxTTL <? params_MinTTL)).
